@@ -65,7 +65,9 @@ func (p *Producer) UnmarshalJSON(b []byte) error {
 		TopologyRegion:   r.TopologyRegion,
 	}
 	for i, t := range r.Topics {
-		p.Topics = append(p.Topics, ProducerTopic{Topic: t, Tombstoned: r.Tombstoned[i]})
+		// tombstones may be shorter than topics (or missing) in a malformed response
+		tombstoned := i < len(r.Tombstoned) && r.Tombstoned[i]
+		p.Topics = append(p.Topics, ProducerTopic{Topic: t, Tombstoned: tombstoned})
 	}
 	version, err := semver.Parse(p.Version)
 	if err != nil {
